@@ -11,7 +11,14 @@ def sub_kernel(c, ctx):
         c.fail_obligation("harness-build(mirror)", blog[-1500:])
         return
     ncases, nops = (40, 30) if c.tier == "quick" else (600, 40)
-    cases, stats, crashes = mirrorlib.run_harness(c, binary, c.seed + 909, ncases, nops)
+    cases, stats, crashes = mirrorlib.run_harness(c, binary, c.seed + 909, ncases // 2, nops)
+    # second half: replayed headers and the harness acting as state machine and gossip reader (slow, stalled, racing)
+    cases2, stats2, crashes2 = mirrorlib.run_harness(c, binary, c.seed + 1909, ncases - ncases // 2, nops + 10,
+                                                     extra=["-replay", "-consumers"], base=100000)
+    cases += cases2
+    crashes += crashes2
+    for key, val in stats2.items():
+        stats[key] = stats.get(key, 0) + val
     n_steps = sum(len(k["steps"]) for k in cases)
     for cr in crashes[:3]:
         m = re.search(r"panic: (.*)", cr["stderr"])
@@ -23,7 +30,7 @@ def sub_kernel(c, ctx):
         c.report(key, "the real mirror crashed: %s (%s)" % (first, site.group(0) if site else "?"),
                  {"batch_seed": cr["batch_seed"], "stderr": cr["stderr"][-1200:], "delivered_before_crash": steps[-8:],
                   "note": "the crashing message is the one generated right after the last delivered step",
-                  "how": "bin/h_mirror -seed %d -cases 5 -ops %d" % (cr["batch_seed"], nops)})
+                  "how": "bin/h_mirror -seed %d -cases 5 -ops %d %s" % (cr["batch_seed"], nops + (10 if cr.get("args") else 0), cr.get("args", ""))})
     # model-side panics (Panic site reachable in the model on a generated history)
     usable = [k for k in cases if k["steps"] and k["init"]]
     results = {}
